@@ -13,5 +13,5 @@ globals().update(P.make("C16",
     "end-of-data look-alikes placed around the 512/4096-octet buffer boundaries, random partitions, second message on the same connection; "
     "the backend must have read exactly the normalised body, and Close must return the backend's verdict. "
     "non-trivial = more than one call; distinct = distinct case line",
-    ["C16_roundtrip (pending)"], lambda tier, rng: [("cconv/bodies-and-partitions", P.c16_cases(tier, rng), True),
+    ["C16_wire_terminated", "C16_roundtrip", "C16_partition_independent", "C16_second_close"], lambda tier, rng: [("cconv/bodies-and-partitions", P.c16_cases(tier, rng), True),
                        ("e2e/client-to-server", e2egen.c16_cases(tier, rng), True, E2E)]))
